@@ -27,6 +27,20 @@ def has_marker(rsmi):
 FORCE_MAPS = [False]
 
 
+def marker_vector(rsmi):
+    """what the pipeline's string-level marker tests see of a spelling (evaluated on the map-free input text): the known finding
+    is that these tests look at whole side strings, so the outcome can follow the position / spelling of a marker-like molecule"""
+    from synrbl.SynUtils.chem_utils import remove_atom_mapping
+    try:
+        a, b = remove_atom_mapping(rsmi).split(">>")
+    except Exception:
+        return None
+    rt, pt = a.split("."), b.split(".")
+    return (".[H]" in b, ".[O]" in b, ".OO" in b, "[H]" in pt, "[O]" in pt, "OO" in pt, pt.count("[H]") % 2, pt.count("[O]") % 2,
+            any(t in ("[Na]", "[K]", "[Li]", "[H-]") for t in rt), ".[H]" in a, ".[O]" in a, rt.count("[H]") % 2,
+            tuple(x in b for x in ("FF", "ClCl", "BrBr", "II", "ClBr", "ClI", "BrI", "F-F", "Cl-Cl")))
+
+
 def respell(smiles, rnd):
     from rdkit import Chem
     m = chem.mol(smiles)
@@ -87,7 +101,8 @@ def judge(base, rnd, n, **cfg):
         if ov != o0:
             if ov[0] == "determined" and o0[1] == ov[1] == "rule-based" and _same_up_to_template(o0[2], ov[2]):
                 continue
-            return "outcome of %r is %r, of the equivalent %r it is %r" % (v0, o0[1:], v, ov[1:])
+            tag = "MARKER " if marker_vector(v0) != marker_vector(v) else ""   # do the string-level marker tests see the two spellings differently?
+            return tag + "outcome of %r is %r, of the equivalent %r it is %r" % (v0, o0[1:], v, ov[1:])
     return None
 
 
@@ -156,7 +171,7 @@ def check(run):
     for r, bad in res:
         cases += 1
         if bad:
-            (marker_fails if has_marker(r) else fails).append(({"kind": "variants", "reaction": r, "seed": run.seed, "n": nvar}, bad))
+            (marker_fails if (has_marker(r) and bad.startswith("MARKER ")) else fails).append(({"kind": "variants", "reaction": r, "seed": run.seed, "n": nvar}, bad))
     # the same with atom-map removal switched off (Balancer.remove_aam = False): mapped and unmapped spellings must still agree
     aam_pool = list(BASE[:10]) + ["OCCO.[Na].[Na]>>[O-]CC[O-].[Na+].[Na+]", "CCO.CCO.[K].[K]>>CC[O-].CC[O-].[K+].[K+]", "OCCCO.[Li].[Li]>>[O-]CCC[O-].[Li+].[Li+]",
                                    "CC(C)O.[Na]>>CC(C)[O-].[Na+]"]
